@@ -295,6 +295,12 @@ class Ops:
     def binop(self, it, op, a, b, inplace=False):
         if isinstance(a, PV) or isinstance(b, PV):
             raise Unsupported('binary operation on function/class value')
+        DUNDER = {ast.Div: '__truediv__', ast.Add: '__add__', ast.Sub: '__sub__', ast.Mult: '__mul__', ast.Mod: '__mod__',
+                  ast.FloorDiv: '__floordiv__', ast.BitOr: '__or__', ast.BitAnd: '__and__'}
+        if a.ty in self.world.classes and type(op) in DUNDER and \
+                (f'{a.ty}.{DUNDER[type(op)]}' in self.world.contracts or self.world.defining_class(a.ty, DUNDER[type(op)])):
+            # operator of a class instance: its method, under that method's contract
+            return self.world.calls.call_method(it, a, a.ty, DUNDER[type(op)], [b], {}, None)
         a, b = it.split_kind(a), it.split_kind(b)
         x, y = a.t, b.t
         r = self.num_binop(it, op, x, y)
@@ -650,6 +656,16 @@ class Ops:
                 raise Unsupported('slice of object')
             it.raise_('TypeError')
         seq = [V.s(c), V.titems(c), V.litems(c), V.by(c)][k]
+        if hi is None and lo is not None and k in (1, 2):
+            # log[len(prefix):] where the log is literally prefix ++ rest: the slice is rest (ghost logs)
+            parts = _concat_parts(simp(it.refine(seq)))
+            start = simp(it.refine(ival(it.refine(lo.t))))
+            for j in range(1, len(parts) + 1):
+                plen = simp(z3.Sum(*[z3.Length(p) for p in parts[:j]])) if j > 1 else simp(z3.Length(parts[0]))
+                if plen.eq(start):
+                    rest = parts[j:]
+                    sub = z3.Concat(*rest) if len(rest) > 1 else (rest[0] if rest else z3.Empty(seq.sort()))
+                    return SV(simp([V.StrV, V.TupleV, V.ListV, V.BytesV][k](sub)), obj.ty)
         n = z3.Length(seq)
         a = norm(lo, n, z3.IntVal(0))
         b = norm(hi, n, n)
@@ -768,6 +784,15 @@ def nonstring_keys(it, cont):
         except Exception:
             return False
     return False
+
+
+def _concat_parts(seq):
+    if z3.is_app(seq) and seq.decl().kind() == z3.Z3_OP_SEQ_CONCAT:
+        out = []
+        for ch in seq.children():
+            out.extend(_concat_parts(ch))
+        return out
+    return [seq]
 
 
 def _hashable(i):
